@@ -13,6 +13,7 @@ mod load;
 mod app;
 mod batch;
 mod robust;
+mod mapmatch;
 
 fn main() {
     let args: Vec<String> = std::env::args().collect();
@@ -31,6 +32,7 @@ fn main() {
         "load" => load::main(rest),
         "batch" => batch::main(rest),
         "robust" => robust::main(rest),
+        "match" => mapmatch::main(rest),
         "robust-child" => robust::child(&rest[0]),
         other => {
             eprintln!("unknown subcommand {}", other);
